@@ -258,10 +258,20 @@ func runC04(rt *rapid.T, st *stats.Collector) {
 		// ... and the next request starts with its own first byte.
 		g.e.srv.Manual = false
 		g.e.srv.AutoPong = true
+		if sc.withCtxDL && insertAt%3 == 0 {
+			// Let the failed query's own deadline pass first: nothing of it (e.g. a write or read
+			// deadline left on the connection) may get in the way of a later request.
+			time.Sleep(61 * time.Minute)
+			st.Label("follow-up-after-the-failed-query's-deadline")
+		}
 		if pingCancelled {
 			// A request that fails before anything is written (its context is already cancelled)
 			// must not leave its bytes behind for the next request either.
 			cctx, ccancel := context.WithCancel(context.Background())
+			if insertAt%2 == 0 {
+				// ... or its deadline has already passed
+				cctx, ccancel = context.WithDeadline(context.Background(), time.Now().Add(-time.Second))
+			}
 			ccancel()
 			if err := g.client.Ping(cctx); err == nil {
 				rt.Fatalf("Ping with a cancelled context returned nil\n%s", describe())
